@@ -218,6 +218,16 @@ pub fn run(tier: Tier, seed0: u64) -> i32 {
         check_hash(&report, 4321, 1, &s, &s);
         salt_cases += 3;
     }
+    // equal salts, salts with zero bytes
+    for i in 0..64u64 {
+        let s = refmodel::ctr_array::<16>(seed0, &format!("pin-eq-{i}"));
+        check_hash(&report, 1000 + i as u32 * 7919, i as u32 * 104_729, &s, &s);
+        let mut z = s;
+        z[(i % 16) as usize] = 0;
+        check_hash(&report, 98765, 4321, &z, &cs);
+        check_hash(&report, 98765, 4321, &ss, &z);
+        salt_cases += 3;
+    }
     report.count("salt_cases", salt_cases);
 
     // (5) verify_client_pin_hash
@@ -243,6 +253,15 @@ pub fn run(tier: Tier, seed0: u64) -> i32 {
             refmodel::hash::sha1_parts(&[&cs, &inner])
         };
         presented.push(ungated);
+        // the hash of the UNREMAPPED digits (identity layout)
+        {
+            let d: Vec<u8> = if p == 0 { vec![] } else { p.to_string().bytes().collect() };
+            let inner = refmodel::hash::sha1_parts(&[&ss, &d]);
+            presented.push(refmodel::hash::sha1_parts(&[&cs, &inner]));
+        }
+        if let Some(h) = reference {
+            presented.extend(crate::common::altered_proofs(&h, false).into_iter().step_by(7));
+        }
         if let Some(h) = reference {
             presented.push(h);
             for bit in 0..160 {
